@@ -139,7 +139,11 @@ func (e naiveEngine) oneStepEvalClause(clause ast.Clause) []ast.Atom {
 
 	var facts []ast.Atom
 	for _, sol := range solutions {
-		facts = append(facts, clause.Head.ApplySubst(sol).(ast.Atom))
+		head, err := functional.EvalAtom(clause.Head, sol)
+		if err != nil {
+			continue
+		}
+		facts = append(facts, head)
 	}
 	return facts
 }
@@ -177,23 +181,17 @@ func (e naiveEngine) oneStepEvalPremise(premise ast.Term, subst unionfind.UnionF
 			return nil
 		})
 	case ast.NegAtom:
-		a, err := functional.EvalAtom(p.Atom, subst)
-		if err != nil {
-			return nil
+		// Errors in premise evaluation are treated as false, as for built-in predicates above.
+		if res, err := premiseNegAtom(p.Atom, e.store, subst); err == nil {
+			solutions = res
 		}
-		e.store.GetFacts(a, func(fact ast.Atom) error {
-			if _, err := unionfind.UnifyTermsExtend(p.Atom.Args, fact.Args, subst); err != nil {
-				solutions = append(solutions, subst)
-			}
-			return nil
-		})
 	case ast.Eq:
-		if newsubst, err := unionfind.UnifyTermsExtend([]ast.BaseTerm{p.Left}, []ast.BaseTerm{p.Right}, subst); err == nil {
-			solutions = append(solutions, newsubst)
+		if res, err := premiseEq(p.Left, p.Right, subst); err == nil {
+			solutions = res
 		}
 	case ast.Ineq:
-		if _, err := unionfind.UnifyTermsExtend([]ast.BaseTerm{p.Left}, []ast.BaseTerm{p.Right}, subst); err != nil {
-			solutions = append(solutions, subst)
+		if res, err := premiseIneq(p.Left, p.Right, subst); err == nil {
+			solutions = res
 		}
 	}
 	return solutions
